@@ -224,6 +224,9 @@ def check_patterns_roundtrip(M, pats):
 
 
 def check_patterns_corruption(M, pats, line_no, new_line):
+    """replace one line of a well-formed pattern file: any exception must be a ValueError; a data line (no "pattern" /
+    "occurrence" in it) that does not consist of exactly two comma-separated fields must raise ValueError naming its 1-based
+    line number, header lines counted (fixed by /repo f596eb3; it used to be IndexError / silently accepted)."""
     lines = render_patterns(pats).split('\n')[:-1]
     if not lines:
         return None
@@ -231,10 +234,22 @@ def check_patterns_corruption(M, pats, line_no, new_line):
     lines[line_no] = new_line
     text = '\n'.join(lines) + '\n'
     a, b = both_ways(M.load_patterns, text)
+    inp = {'loader': 'patterns', 'text': text, 'faulty_line': line_no + 1}
+    is_data = 'pattern' not in new_line and 'occurrence' not in new_line
+    # the first line that is not "a, b" -- an earlier unparsable number cannot occur: the other lines are well-formed
+    must_name_row = is_data and len((new_line + '\n').split(',')) != 2
     for o in (a, b):
         if o[0] == 'exc' and o[1] != 'ValueError':
-            return finding('io.load_patterns', 'a malformed data row raises ValueError', {'loader': 'patterns', 'text': text},
-                           list(o[:2]) + [o[2][:100]], 'other exception class')
+            return finding('io.load_patterns', 'a malformed data row raises ValueError', inp, list(o[:2]) + [o[2][:100]],
+                           'other exception class')
+        if must_name_row:
+            if o[0] != 'exc':
+                return finding('io.load_patterns', 'a data row without exactly two columns raises ValueError', inp,
+                               repr(o[1])[:200], 'no exception')
+            m = ROW_RE.search(o[2])
+            if not m or int(m.group(1)) != line_no + 1:
+                return finding('io.load_patterns', 'the ValueError names the faulty row (1-based, header lines count)', inp,
+                               o[2][:200], 'row not named')
     return None
 
 
@@ -311,7 +326,7 @@ def search(M, rng, budget=300):
         if key not in best or size < best[key][0]:
             best[key] = (size, f)
 
-    # fixed: the documented errors and the two suspected defects
+    # fixed inputs: the documented errors and the two former defects (fixed in /repo by 7de24cd and f596eb3)
     note(check_documented_error(M, 'tempo', '60 120 1.5\n', 'a tempo weight outside [0, 1]'))
     note(check_documented_error(M, 'tempo', '60 120 -0.5\n', 'a tempo weight outside [0, 1]'))
     note(check_documented_error(M, 'tempo', '60 120 0.5\n60 120 0.5\n', 'a multi-line tempo file'))
@@ -321,6 +336,9 @@ def search(M, rng, budget=300):
     note(check_documented_error(M, 'key', '', 'a key file without any line'))
     note(check_patterns_corruption(M, [[[(1.0, 60.0)]]], 2, '1.0'))
     note(check_patterns_corruption(M, [[[(1.0, 60.0)]]], 2, '1.0 60.0'))
+    note(check_patterns_corruption(M, [[[(1.0, 60.0)]]], 2, '1.0, 60.0, 3.0'))
+    note(check_patterns_corruption(M, [[[(1.0, 60.0), (2.0, 61.0)]], [[(3.0, 62.0)]]], 6, '3.0'))
+    note(check_patterns_corruption(M, [[[(1.0, 60.0)]]], 2, ''))
     note(check_warned_not_raised(M, 'events', [[2.0], [1.0]]))
     note(check_warned_not_raised(M, 'events', [[30000.5]]))
     note(check_warned_not_raised(M, 'labeled_events', [[2.0, 'a b'], [1.0, 'c']]))
@@ -347,7 +365,7 @@ def search(M, rng, budget=300):
                      for _ in range(rng.randint(1, 3))] for _ in range(rng.randint(0, 3))]
             note(check_patterns_roundtrip(M, pats))
             if pats:
-                note(check_patterns_corruption(M, pats, rng.randrange(50), rng.choice(['1.0', '', 'x, 1', '1.0,', '3 4', ' '])))
+                note(check_patterns_corruption(M, pats, rng.randrange(50), rng.choice(['1.0', '', 'x, 1', '1.0,', '3 4', ' ', '1,2,3', '1.0, 60.0,', ',,'])))
             times = [i / 4.0 for i in range(rng.randint(0, 6))]
             vals = [[rng.choice([rng.randint(400, 8000) / 8.0, rng.uniform(50, 1000), rnd_float(rng)])
                      for _ in range(rng.choice([0, 1, 2, 4]))] for _ in times]
